@@ -1,2 +1,246 @@
-// Package c03: implementation-side ops, generators and oracles for property C03.
+// Package c03: any modification of a protected value is detected, never mis-decrypted, and never
+// brings the handler down (C03). Uses the envelope ops "C01.*" on a malformed stream derived from
+// valid values.
 package c03
+
+import (
+	"bytes"
+	"encoding/binary"
+	"fmt"
+
+	"verifharness/internal/core"
+	env "verifharness/internal/envops"
+)
+
+func init() { core.RegisterProp("C03", run) }
+
+func okHex(out string) ([]byte, bool) {
+	if len(out) >= 4 && out[:3] == "ok " {
+		f := out[3:]
+		for i := 0; i < len(f); i++ {
+			if f[i] == ' ' {
+				f = f[:i]
+				break
+			}
+		}
+		return core.UnHex(f), true
+	}
+	return nil, false
+}
+
+// interesting values for length fields taken from the wire
+var lengthEdits = []uint64{0, 1, 2, 11, 12, 13, 14, 17, 18, 19, 1 << 15, 1<<16 - 1, 1 << 16, 1 << 31, 1<<32 - 1, 1 << 32,
+	1<<63 - 145, 1<<63 - 12, 1<<63 - 5, 1<<63 - 4, 1<<63 - 1, 1 << 63, 1<<63 + 4, 1<<64 - 146, 1<<64 - 145, 1<<64 - 19, 1<<64 - 18, 1<<64 - 13, 1<<64 - 12, 1<<64 - 5, 1<<64 - 4, 1<<64 - 3, 1<<64 - 1}
+
+type value struct {
+	kind   string // struct | block
+	m      []byte // plaintext
+	bare   []byte // bare envelope
+	cont   []byte // serialized container
+	kv     *env.KV
+	ctxLib []byte
+}
+
+func mkValue(r *core.Run, kind string, l int) (*value, bool) {
+	rd := r.Rand
+	m := rd.Bytes(l) // random plaintexts: a damaged value must never be accepted "by accident"
+	kv := env.NewKV(rd, 1+rd.Intn(3), 1+rd.Intn(3))
+	p, ok := env.Protect(r, kind, kv, m)
+	if !ok || bytes.Equal(p, m) {
+		return nil, false
+	}
+	return &value{kind: kind, m: m, cont: p, bare: p[12:], kv: kv}, true
+}
+
+// judge applies the C03 oracle to one reveal-type outcome
+func judge(r *core.Run, op, out string, v *value, what string) {
+	if !r.Check(out != core.Panic, "panic:"+op, fmt.Sprintf("%s panics on a %s (%s)", op, what, v.kind)) {
+		return
+	}
+	r.Check(out != "timeout" && out != "oom", "hang:"+op, fmt.Sprintf("%s does not terminate on a %s", op, what))
+	if b, ok := okHex(out); ok {
+		r.Check(bytes.Equal(b, v.m), "misdecrypt:"+op, fmt.Sprintf("%s returned DIFFERENT plaintext for a %s (%s)", op, what, v.kind))
+	}
+}
+
+func run(r *core.Run) {
+	r.Rule = "malformed stream: for valid protected values of both kinds (random plaintexts, lengths 1–300) every header bit flip + sampled payload flips, truncations, extensions, every length/type/key-id field set to boundary values (2^15 … 2^64-1), pairwise splices at field boundaries; each mutant goes to every decoder and reveal entry point and, embedded in junk, to both column detectors; non-trivial = mutant differs from the valid value; distinct by mutant bytes"
+	rd := r.Rand
+	nvals := r.N(6, 40)
+	var vals []*value
+	for i := 0; i < nvals; i++ {
+		kind := []string{"struct", "block"}[i%2]
+		r.Begin(fmt.Sprintf("mk-%d", i), false)
+		if v, ok := mkValue(r, kind, []int{1, 5, 16, 33, 100, 300}[rd.Intn(6)]); ok {
+			vals = append(vals, v)
+		}
+	}
+	for vi, v := range vals {
+		var mutants []mutant
+		hdr := 12 + 18 // container header + block header
+		if v.kind == "struct" {
+			hdr = 12 + 145
+		}
+		// bit flips: every header bit position (thorough: every byte of the value), sampled payload
+		for pos := 0; pos < len(v.cont); pos++ {
+			if pos < hdr || r.Thorough() || rd.Intn(len(v.cont)) < 48 {
+				bits := []uint{uint(rd.Intn(8))}
+				if pos < 30 || r.Thorough() {
+					bits = []uint{0, 1, 2, 3, 4, 5, 6, 7}
+				}
+				for _, bit := range bits {
+					x := append([]byte{}, v.cont...)
+					x[pos] ^= 1 << bit
+					mutants = append(mutants, mutant{x, fmt.Sprintf("bit flip at byte %d bit %d", pos, bit)})
+				}
+			}
+		}
+		// truncations
+		for n := 0; n < len(v.cont); n++ {
+			if n < hdr+2 || r.Thorough() || rd.Intn(len(v.cont)) < 24 {
+				mutants = append(mutants, mutant{append([]byte{}, v.cont[:n]...), fmt.Sprintf("truncation to %d bytes", n)})
+			}
+		}
+		// extension
+		for _, n := range []int{1, 2, 12, 50} {
+			mutants = append(mutants, mutant{append(append([]byte{}, v.cont...), rd.Bytes(n)...), fmt.Sprintf("extension by %d bytes", n)})
+		}
+		// length / type / id field edits
+		type field struct {
+			off, size int
+			name      string
+		}
+		fields := []field{{3, 8, "container length"}, {11, 1, "envelope id"}}
+		if v.kind == "block" {
+			fields = append(fields, field{12 + 4, 8, "block rest length"}, field{12 + 12, 1, "key backend"}, field{12 + 13, 2, "key id"}, field{12 + 15, 1, "data backend"}, field{12 + 16, 2, "key length"})
+		} else {
+			fields = append(fields, field{12 + 137, 8, "struct data length"}, field{12 + 8, 4, "public key header"}, field{12 + 53, 8, "wrapped key header"})
+		}
+		for _, f := range fields {
+			var cur uint64
+			buf := make([]byte, 8)
+			copy(buf, v.cont[f.off:f.off+f.size])
+			cur = binary.LittleEndian.Uint64(buf)
+			edits := append([]uint64{cur - 1, cur + 1, cur + 12, cur - 12, cur + 4, cur - 4}, lengthEdits...)
+			for _, e := range edits {
+				x := append([]byte{}, v.cont...)
+				binary.LittleEndian.PutUint64(buf, e)
+				copy(x[f.off:f.off+f.size], buf[:f.size])
+				if !bytes.Equal(x, v.cont) {
+					mutants = append(mutants, mutant{x, fmt.Sprintf("%s set to %d", f.name, e)})
+				}
+			}
+		}
+		// splices with another value of the same kind: header of one, payload of the other
+		for _, w := range vals {
+			if w == v || w.kind != v.kind {
+				continue
+			}
+			cuts := []int{12, 12 + 4, 12 + 12, 12 + 18}
+			if v.kind == "struct" {
+				cuts = []int{12, 12 + 8, 12 + 53, 12 + 137, 12 + 145}
+			} else {
+				cuts = append(cuts, 12+18+76)
+			}
+			for _, c := range cuts {
+				if c < len(v.cont) && c < len(w.cont) {
+					x := append(append([]byte{}, v.cont[:c]...), w.cont[c:]...)
+					mutants = append(mutants, mutant{x, fmt.Sprintf("splice at %d with another value", c)})
+				}
+			}
+			break
+		}
+		for mi, mu := range mutants {
+			x := mu.b[:len(mu.b):len(mu.b)]
+			key := fmt.Sprintf("v%d-%s-%s", vi, v.kind, core.Hex(x))
+			if len(key) > 200 {
+				key = fmt.Sprintf("v%d-m%d-%s", vi, mi, mu.what)
+			}
+			r.Begin(key, !bytes.Equal(x, v.cont), "stream:malformed", "kind:"+v.kind, "mut:"+firstWords(mu.what))
+			what := "value with " + mu.what
+			judge(r, "handler.reveal", r.Do(fmt.Sprintf("C01.handler.reveal %s %s", v.kv.Tokens(), core.Hex(x))), v, what)
+			for _, op := range []string{"container.deser", "container.extract", "handler.match"} {
+				out := r.Do("C01." + op + " " + core.Hex(x))
+				r.Check(out != core.Panic, "panic:"+op, fmt.Sprintf("%s panics on a %s", op, what))
+			}
+			// the bare envelope carrying the same damage (when the damage is inside it)
+			if len(x) > 12 {
+				bare := x[12:len(x):len(x)]
+				if v.kind == "struct" {
+					for _, op := range []string{"struct.validate", "struct.extract"} {
+						out := r.Do("C01." + op + " " + core.Hex(bare))
+						r.Check(out != core.Panic, "panic:"+op, fmt.Sprintf("%s panics on a bare struct with %s", op, mu.what))
+					}
+					judge(r, "struct.decrypt", r.Do(fmt.Sprintf("C01.struct.decrypt %s - %s", env.List(v.kv.Privs), core.Hex(bare))), v, "bare struct with "+mu.what)
+				} else {
+					out := r.Do("C01.block.extract " + core.Hex(bare))
+					r.Check(out != core.Panic, "panic:block.extract", "ExtractAcraBlockFromData panics on a bare block with "+mu.what)
+					// AcraBlock(raw).Decrypt on unvalidated bytes is not a path Acra takes (every caller goes through
+					// NewAcraBlockFromData first): compared with the model, not judged
+					r.Do(fmt.Sprintf("C01.block.decrypt %s - %s", env.List(v.kv.Syms), core.Hex(bare)))
+					// what the handler does: extract, then decrypt the extracted block
+					var n int
+					var hb string
+					if _, err := fmt.Sscanf(out, "ok %d %s", &n, &hb); err == nil {
+						judge(r, "block.extract+decrypt", r.Do(fmt.Sprintf("C01.block.decrypt %s - %s", env.List(v.kv.Syms), hb)), v, "extracted bare block with "+mu.what)
+					}
+				}
+			}
+			// transparent column processing: damaged value embedded in junk comes back unchanged
+			// (or, when the damage left the envelope itself intact, with exactly that envelope revealed)
+			if mi%3 == 0 || r.Thorough() {
+				pre, suf := env.Junk(rd, 16), env.Junk(rd, 16)
+				col := append(append(append([]byte{}, pre...), x...), suf...)
+				for _, op := range []string{"C01.detector.oncolumn", "C01.detector.compat"} {
+					out := r.Do(fmt.Sprintf("%s %s %s", op, v.kv.Tokens(), core.Hex(col)))
+					if !r.Check(out != core.Panic && out != "fatal", "panic:"+op, fmt.Sprintf("%s fails (%s) on a column holding a %s", op, out, what)) {
+						continue
+					}
+					got, _ := okHex(out)
+					// acceptable: unchanged, or an envelope that survived the damage INTACT (the whole container, or –
+					// for the compatibility wrapper – the bare envelope inside a damaged container header) replaced by
+					// exactly the original plaintext
+					okOut := bytes.Equal(got, col) ||
+						(bytes.Contains(col, v.cont) && bytes.Equal(got, bytes.Replace(col, v.cont, v.m, 1))) ||
+						(op == "C01.detector.compat" && bytes.Contains(col, v.bare) && bytes.Equal(got, bytes.Replace(col, v.bare, v.m, 1)))
+					r.Check(okOut, "column-damaged:"+op, fmt.Sprintf("%s: a column holding a %s came back neither unchanged nor with an intact envelope replaced by the original plaintext", op, what))
+				}
+			}
+		}
+	}
+	// searchable-hash / foreign-key style damage is covered by C02/C09; pure garbage of boundary lengths here
+	for _, l := range []int{0, 1, 3, 4, 8, 11, 12, 13, 17, 18, 19, 144, 145, 146, 157} {
+		for _, fill := range []byte{'"', '%', 0, 0xff} {
+			x := bytes.Repeat([]byte{fill}, l)
+			r.Begin(fmt.Sprintf("garbage-%d-%d", l, fill), l > 0, "stream:malformed", "mut:garbage")
+			kv := env.NewKV(rd, 1, 1)
+			for _, op := range []string{"struct.validate", "struct.extract", "block.extract", "container.deser", "container.extract", "handler.match"} {
+				out := r.Do("C01." + op + " " + core.Hex(x))
+				r.Check(out != core.Panic, "panic:"+op, fmt.Sprintf("%s panics on %d bytes of 0x%02x", op, l, fill))
+			}
+			for _, op := range []string{"handler.reveal", "detector.oncolumn", "detector.compat"} {
+				out := r.Do(fmt.Sprintf("C01.%s %s %s", op, kv.Tokens(), core.Hex(x)))
+				r.Check(out != core.Panic, "panic:"+op, fmt.Sprintf("%s panics on %d bytes of 0x%02x", op, l, fill))
+			}
+			r.Do(fmt.Sprintf("C01.block.decrypt %s - %s", env.List(kv.Syms), core.Hex(x)))
+		}
+	}
+}
+
+type mutant struct {
+	b    []byte
+	what string
+}
+
+func firstWords(s string) string {
+	n := 0
+	for i := 0; i < len(s); i++ {
+		if s[i] == ' ' {
+			n++
+			if n == 2 {
+				return s[:i]
+			}
+		}
+	}
+	return s
+}
